@@ -37,6 +37,20 @@ deriving Repr, DecidableEq, Inhabited
 def TermEnc.new (maxNames maxPrefixes maxDatatypes : Nat) : TermEnc :=
   { names := .new maxNames, prefixes := .new maxPrefixes, datatypes := .new maxDatatypes }
 
+/-- `TermEncoder.start_row`: the terms of a new row are about to be encoded; entries used by the
+    previous row may be evicted again. -/
+def LookupEnc.startRow (e : LookupEnc) : LookupEnc := { e with lookup := { e.lookup with pinned := some [] } }
+
+def TermEnc.startRow (te : TermEnc) : TermEnc :=
+  { names := te.names.startRow, prefixes := te.prefixes.startRow, datatypes := te.datatypes.startRow }
+
+/-- The encoder state with the row-local bookkeeping (`pinned`) forgotten: what the NEXT row sees,
+    since every row starts with `startRow`. -/
+def LookupEnc.unpin (e : LookupEnc) : LookupEnc := { e with lookup := { e.lookup with pinned := none } }
+
+def TermEnc.unpin (te : TermEnc) : TermEnc :=
+  { names := te.names.unpin, prefixes := te.prefixes.unpin, datatypes := te.datatypes.unpin }
+
 /-- Result of a step that may raise after having changed the state. -/
 abbrev Res (σ α : Type) := σ × Except PyErr α
 
@@ -146,6 +160,8 @@ structure EncState where
   rep : Repeated := {}
 deriving Repr, DecidableEq, Inhabited
 
+def EncState.unpin (st : EncState) : EncState := { st with te := st.te.unpin }
+
 /-- One slot of `encode_spo`/`encode_quad`: compare with the repeated term, encode on a
     difference, then remember the term. `exc` is what `next(terms)` raises on a short tuple. -/
 def encSlot (enc : TermEnc → Term → Res TermEnc (List Row × WTerm))
@@ -158,7 +174,8 @@ def encSlot (enc : TermEnc → Term → Res TermEnc (List Row × WTerm))
     | (te', .ok (rows, w)) => (te', some t, .ok (rows, some w))
 
 /-- `encode_triple` on an arbitrary tuple of terms (`exc` = StopIteration flavour). -/
-def encodeTriple (exc : PyErr) (st : EncState) (terms : List Term) : Res EncState (List Row) :=
+def encodeTriple (exc : PyErr) (st0 : EncState) (terms : List Term) : Res EncState (List Row) :=
+  let st : EncState := { st0 with te := st0.te.startRow }
   match terms with
   | [] => (st, .error exc)
   | s :: rest =>
@@ -183,7 +200,8 @@ def encodeTriple (exc : PyErr) (st : EncState) (terms : List Term) : Res EncStat
                .ok (r1 ++ r2 ++ r3 ++ [Row.triple ws wp wo]))
 
 /-- `encode_quad`. -/
-def encodeQuad (exc : PyErr) (st : EncState) (terms : List Term) : Res EncState (List Row) :=
+def encodeQuad (exc : PyErr) (st0 : EncState) (terms : List Term) : Res EncState (List Row) :=
+  let st : EncState := { st0 with te := st0.te.startRow }
   match terms with
   | [] => (st, .error exc)
   | s :: rest =>
@@ -216,7 +234,7 @@ def encodeQuad (exc : PyErr) (st : EncState) (terms : List Term) : Res EncState 
 
 /-- `encode_namespace_declaration`. -/
 def encodeNamespace (te : TermEnc) (name iri : String) : Res TermEnc (List Row) :=
-  match te.iriIndices iri with
+  match te.startRow.iriIndices iri with
   | (te', .error e) => (te', .error e)
   | (te', .ok (rows, p, n)) => (te', .ok (rows ++ [Row.namespace name (some (p, n))]))
 
